@@ -87,6 +87,9 @@ func gen(g *kernel.Rng, seed uint64, tier string) *kernel.Plan {
 		if api == 5 {
 			readMode = int64(g.Pick(2, 2, 3))
 		}
+		if g.Bool(0.08) {
+			readMode = 3 // the receiver abandons the message after a prefix (NextReader discards the rest)
+		}
 		p.Ops = append(p.Ops, kernel.Op{K: "m", T: e, N: []int64{int64(g.Range(1, 2)), sz, int64(g.U32()), api, int64(g.U32()), readMode, int64(g.Pick(1, 4)), int64(g.Range(-2, 9))}})
 	}
 	p.Tape = kernel.GenTape(g, g.Range(0, 200), 0.25)
@@ -103,6 +106,7 @@ type sent struct {
 type got struct {
 	typ     int
 	payload []byte
+	partial bool // the receiver stopped reading before the end of the message
 }
 
 type endState struct {
@@ -111,6 +115,7 @@ type endState struct {
 	got     []got
 	readErr error
 	jsonBad string
+	abandoned int
 }
 
 func payloadOf(o kernel.Op) []byte {
@@ -337,7 +342,7 @@ func run(p *kernel.Plan) (res *kernel.Result) {
 					if !bytes.Equal(wb, gb) && st.jsonBad == "" {
 						st.jsonBad = fmt.Sprintf("message %d: ReadJSON gave %s, written %s", i, clip(gb), clip(wb))
 					}
-					st.got = append(st.got, got{websocket.TextMessage, wb})
+					st.got = append(st.got, got{websocket.TextMessage, wb, false})
 				case 1: // NextReader + partial reads
 					typ, r, err := c.NextReader()
 					if err != nil {
@@ -357,14 +362,44 @@ func run(p *kernel.Plan) (res *kernel.Result) {
 							return
 						}
 					}
-					st.got = append(st.got, got{typ, buf})
+					st.got = append(st.got, got{typ, buf, false})
+				case 3: // NextReader, a prefix, then on to the next message
+					typ, r, err := c.NextReader()
+					if err != nil {
+						st.readErr = err
+						return
+					}
+					var buf []byte
+					stop := tape.Next(3000)
+					tmp := make([]byte, 1+tape.Next(700))
+					partial := true
+					for len(buf) < stop {
+						k := 1 + tape.Next(len(tmp))
+						if k > stop-len(buf) {
+							k = stop - len(buf)
+						}
+						n, err := r.Read(tmp[:k])
+						buf = append(buf, tmp[:n]...)
+						if err == io.EOF {
+							partial = false
+							break
+						}
+						if err != nil {
+							st.readErr = err
+							return
+						}
+					}
+					st.got = append(st.got, got{typ, buf, partial})
+					if partial {
+						st.abandoned++
+					}
 				default:
 					typ, b, err := c.ReadMessage()
 					if err != nil {
 						st.readErr = err
 						return
 					}
-					st.got = append(st.got, got{typ, b})
+					st.got = append(st.got, got{typ, b, false})
 				}
 				t.Evf("read", "e%d #%d len=%d", e, i, len(st.got[len(st.got)-1].payload))
 			}
@@ -487,6 +522,13 @@ func run(p *kernel.Plan) (res *kernel.Result) {
 		for i := 0; i < len(from.sent) && i < len(to.got); i++ {
 			if to.got[i].typ != from.sent[i].typ {
 				return res.Fail("C13/received-type", "%s: message %d written as type %d received as type %d", names[e], i, from.sent[i].typ, to.got[i].typ)
+			}
+			if to.got[i].partial {
+				res.Stat("messages_abandoned_after_a_prefix", 1)
+				if !bytes.HasPrefix(from.sent[i].payload, to.got[i].payload) {
+					return res.Fail(fmt.Sprintf("C13/received-prefix:api%d", from.sent[i].api), "%s: message %d (api %d): the %d bytes read before the receiver moved on are not a prefix of the %d bytes written", names[e], i, from.sent[i].api, len(to.got[i].payload), len(from.sent[i].payload))
+				}
+				continue
 			}
 			if !bytes.Equal(to.got[i].payload, from.sent[i].payload) {
 				return res.Fail(fmt.Sprintf("C13/received-payload:api%d", from.sent[i].api), "%s: message %d (api %d): written %d bytes %s, received %d bytes %s", names[e], i, from.sent[i].api, len(from.sent[i].payload), clip(from.sent[i].payload), len(to.got[i].payload), clip(to.got[i].payload))
